@@ -114,3 +114,134 @@ Proof.
   - rewrite (proj1 Hm). cbn [N.eqb]. exact Hm.
   - exact Hm.
 Qed.
+
+(** ** writing through element handles *)
+Lemma sp_upd_eq i t xs : sp_upd i t xs = upd i t xs.
+Proof. reflexivity. Qed.
+
+Lemma vi_upd c vv a i t v' :
+  VI c vv a -> Rep c v' (upd i t (a_xs a)) -> vcap v' = vcap vv -> vbk v' = vbk vv ->
+  VI c v' (with_xs a (sp_upd i t (a_xs a))).
+Proof.
+  intros [HR Hbk Hwf Hcap Hfits] HR' Hc Hb. constructor; cbn [with_xs a_bk a_xs]; auto; try congruence.
+  destruct (acap c (a_bk a)); [congruence|exact I].
+Qed.
+
+Lemma elem_tok c vv a i : VI c vv a -> (i < length (a_xs a))%nat -> tok_ok (szn c) (nth i (a_xs a) 0).
+Proof.
+  intros HV Hi. pose proof (rep_tok _ _ _ (vi_rep _ _ _ HV)) as Ht. rewrite Forall_forall in Ht.
+  apply Ht. apply nth_In. exact Hi.
+Qed.
+
+Lemma exec_write c w st hk vid idx r :
+  WRep c w st -> ufuse (wuw w) = None ->
+  sp_write c st (unext (wuw w)) vid idx = Some r ->
+  res_matches c w (exec c (OWrite hk vid idx) w) r.
+Proof.
+  intros HW Hfuse Hr. unfold sp_write in Hr.
+  destruct (get_a vid st) as [av|] eqn:Hg; [|discriminate].
+  destruct (wrep_get c w st vid av HW Hg) as (vv & Hgv & HV).
+  pose proof (vi_rep _ _ _ HV) as HR. pose proof (rep_len _ _ _ HR) as Hlen.
+  cbv zeta in Hr. set (xs := a_xs av) in *.
+  cbn [exec]. rewrite (bind_ok _ _ _ _ _ (peek_vec_ok vid w vv Hgv)). rewrite Hlen.
+  unfold bind at 1. unfold assert_.
+  destruct (N.ltb_spec idx (N.of_nat (length xs))) as [Hlt|Hge]; injection Hr as <-.
+  - set (i := N.to_nat idx). assert (Hi : (i < length xs)%nat) by (unfold i; lia).
+    assert (Hidx : idx = N.of_nat i) by (unfold i; lia).
+    set (t := nth i xs 0). set (n := tok c (unext (wuw w))).
+    unfold ret at 1. rewrite Hidx.
+    pose proof (read_elem c vv (wuw w) xs i HR Hi) as Er.
+    rewrite (bind_ok _ _ _ _ _ (on_vec_ok vid _ w vv _ vv (wuw w) Hgv Er)).
+    set (w1 := put_vec vid (Some vv) (wuw w) w).
+    pose proof (elem_tok c vv av i HV Hi) as Ht. fold xs in Ht. fold t in Ht.
+    unfold bind at 1. unfold decode. fold t. rewrite (dec_enc _ _ Ht). unfold ret at 1.
+    unfold bind at 1. unfold freshw at 1. fold n.
+    set (w2 := {| wv := wv w1; wuw := {| ulog := ulog (wuw w1); unext := unext (wuw w1) + 1; ufuse := ufuse (wuw w1) |} |}).
+    destruct (write_elem c vv (wuw w2) xs i n HR Hi (tok_tok_ok c _)) as (v' & Ew & HR' & Hl' & Hc' & Hg' & Hb' & Hm').
+    assert (Hgv2 : get_vec vid w2 = Some vv) by (apply get_vec_put_same).
+    unfold enc_c. rewrite (bind_ok _ _ _ _ _ (on_vec_ok vid _ w2 vv tt v' (wuw w2) Hgv2 Ew)).
+    set (w3 := put_vec vid (Some v') (wuw w2) w2).
+    unfold bind, harness_drop, ret.
+    assert (Hrep3 : WRep c w3 (set_a vid (Some (with_xs av (sp_upd i n xs))) st)).
+    { intros k. unfold w3, w2, w1, put_vec, set_a. cbn [wv]. rewrite !slot_set_nth.
+      destruct (Nat.eqb_spec k vid) as [->|Hne]; [|apply HW].
+      apply (vi_upd c vv av i n v' HV HR' Hc' Hb'). }
+    cbn [res_matches ok_res s_out s_pk s_ret s_st s_evs s_nx].
+    destruct (c_dg c) eqn:Hdg; unfold emitw; cbn [res_matches];
+      (split; [reflexivity|split; [reflexivity|split; [reflexivity|]]]);
+      constructor; cbn [wuw wv ok_res s_nx s_evs s_st]; auto.
+    + unfold w3, w2, w1. cbn [wuw put_vec emit unext]. lia.
+    + unfold uevents, drop_ev. rewrite Hdg. unfold w3, w2, w1. cbn [wuw put_vec emit ulog filter is_user_event rev app]. reflexivity.
+    + unfold w3, w2, w1. cbn [wuw put_vec unext]. lia.
+    + unfold drop_ev. rewrite Hdg. reflexivity.
+  - unfold raise. cbn [res_matches panic_res s_out s_pk s_ret s_st s_evs s_nx].
+    split; [reflexivity|split; [reflexivity|split; [reflexivity|]]]. rewrite N.sub_diag.
+    apply step_ok_refl; assumption.
+Qed.
+
+Lemma exec_swap c w st v1 i v2 j r :
+  WRep c w st -> ufuse (wuw w) = None ->
+  sp_swap c st (unext (wuw w)) v1 i v2 j = Some r ->
+  res_matches c w (exec c (OSwap 0 v1 i v2 j) w) r.
+Proof.
+  intros HW Hfuse Hr. unfold sp_swap in Hr.
+  destruct (Nat.eqb_spec v1 v2) as [|Hne]; [discriminate|].
+  destruct (get_a v1 st) as [a|] eqn:Hga; [|discriminate].
+  destruct (get_a v2 st) as [b|] eqn:Hgb; [|discriminate].
+  destruct (wrep_get c w st v1 a HW Hga) as (va & Hgva & HVa).
+  destruct (wrep_get c w st v2 b HW Hgb) as (vb & Hgvb & HVb).
+  pose proof (vi_rep _ _ _ HVa) as HRa. pose proof (rep_len _ _ _ HRa) as Hla.
+  pose proof (vi_rep _ _ _ HVb) as HRb. pose proof (rep_len _ _ _ HRb) as Hlb.
+  cbn [exec]. rewrite (bind_ok _ _ _ _ _ (peek_vec_ok v1 w va Hgva)).
+  rewrite (bind_ok _ _ _ _ _ (peek_vec_ok v2 w vb Hgvb)). rewrite Hla, Hlb.
+  unfold bind at 1. unfold assert_.
+  assert (Hpanic : forall w0, w0 = w -> r = panic_res PIndex [] st (unext (wuw w)) ->
+            res_matches c w (Panic PIndex w0) r).
+  { intros w0 -> ->. cbn [res_matches panic_res s_out s_pk s_ret s_st s_evs s_nx].
+    split; [reflexivity|split; [reflexivity|split; [reflexivity|]]]. rewrite N.sub_diag. apply step_ok_refl; assumption. }
+  destruct (N.ltb_spec i (N.of_nat (length (a_xs a)))) as [Hi|Hi]; cbn [negb orb] in Hr.
+  2:{ injection Hr as <-. unfold raise. apply Hpanic; reflexivity. }
+  unfold ret at 1. unfold bind at 1.
+  destruct (N.ltb_spec j (N.of_nat (length (a_xs b)))) as [Hj|Hj]; cbn [negb] in Hr.
+  2:{ injection Hr as <-. unfold raise. apply Hpanic; reflexivity. }
+  injection Hr as <-. unfold ret at 1. cbn [N.eqb].
+  set (ii := N.to_nat i). set (jj := N.to_nat j).
+  assert (Hii : (ii < length (a_xs a))%nat) by (unfold ii; lia). assert (Hjj : (jj < length (a_xs b))%nat) by (unfold jj; lia).
+  assert (Ei : i = N.of_nat ii) by (unfold ii; lia). assert (Ej : j = N.of_nat jj) by (unfold jj; lia).
+  rewrite Ei, Ej.
+  set (x := nth ii (a_xs a) 0). set (y := nth jj (a_xs b) 0).
+  (* read a[i] *)
+  rewrite (bind_ok _ _ _ _ _ (on_vec_ok v1 _ w va _ va (wuw w) Hgva (read_elem c va (wuw w) (a_xs a) ii HRa Hii))).
+  set (w1 := put_vec v1 (Some va) (wuw w) w).
+  assert (Hg1b : get_vec v2 w1 = Some vb).
+  { rewrite get_vec_slot. unfold w1, put_vec. cbn [wv]. rewrite slot_set_nth.
+    destruct (Nat.eqb_spec v2 v1); [congruence|]. rewrite <- get_vec_slot. exact Hgvb. }
+  (* read b[j] *)
+  rewrite (bind_ok _ _ _ _ _ (on_vec_ok v2 _ w1 vb _ vb (wuw w1) Hg1b (read_elem c vb (wuw w1) (a_xs b) jj HRb Hjj))).
+  set (w2 := put_vec v2 (Some vb) (wuw w1) w1).
+  assert (Hg2a : get_vec v1 w2 = Some va).
+  { rewrite get_vec_slot. unfold w2, put_vec. cbn [wv]. rewrite slot_set_nth.
+    destruct (Nat.eqb_spec v1 v2); [congruence|]. rewrite <- get_vec_slot. apply get_vec_put_same. }
+  (* a[i] := y *)
+  destruct (write_elem c va (wuw w2) (a_xs a) ii y HRa Hii (elem_tok c vb b jj HVb Hjj)) as (va' & Ewa & HRa' & _ & Hca & _ & Hba & _).
+  rewrite (bind_ok _ _ _ _ _ (on_vec_ok v1 _ w2 va tt va' (wuw w2) Hg2a Ewa)).
+  set (w3 := put_vec v1 (Some va') (wuw w2) w2).
+  assert (Hg3b : get_vec v2 w3 = Some vb).
+  { rewrite get_vec_slot. unfold w3, put_vec. cbn [wv]. rewrite slot_set_nth.
+    destruct (Nat.eqb_spec v2 v1); [congruence|]. rewrite <- get_vec_slot. apply get_vec_put_same. }
+  (* b[j] := x *)
+  destruct (write_elem c vb (wuw w3) (a_xs b) jj x HRb Hjj (elem_tok c va a ii HVa Hii)) as (vb' & Ewb & HRb' & _ & Hcb & _ & Hbb & _).
+  rewrite (bind_ok _ _ _ _ _ (on_vec_ok v2 _ w3 vb tt vb' (wuw w3) Hg3b Ewb)).
+  unfold ret.
+  cbn [res_matches ok_res s_out s_pk s_ret s_st s_evs s_nx].
+  split; [reflexivity|split; [reflexivity|split; [reflexivity|]]]. rewrite N.sub_diag.
+  constructor.
+  - intros k. unfold w3, w2, w1, put_vec, set_a. cbn [wv]. rewrite !slot_set_nth.
+    destruct (Nat.eqb_spec k v2) as [->|Hk2].
+    + apply (vi_upd c vb b jj x vb' HVb HRb' Hcb Hbb).
+    + destruct (Nat.eqb_spec k v1) as [->|Hk1]; [|apply HW].
+      apply (vi_upd c va a ii y va' HVa HRa' Hca Hba).
+  - rewrite wuw_put. unfold w3, w2, w1. rewrite !wuw_put. lia.
+  - rewrite wuw_put. unfold w3, w2, w1. rewrite !wuw_put. exact Hfuse.
+  - rewrite wuw_put. unfold w3, w2, w1. rewrite !wuw_put. reflexivity.
+Qed.
